@@ -22,6 +22,7 @@ var c03Inflight = map[string]string{
 	"before":     "delay=2100ms", // done at t_d + D - 0.1s
 	"after":      "delay=2300ms", // would be done at t_d + D + 0.1s
 	"never":      "hang",
+	"streaming":  "stream=2100ms", // status line and headers at once, the body complete at t_d + D - 0.1s
 	"upgrade":    "upgrade",
 	"upgrade-ka": "upgrade",             // the same with "Connection: keep-alive, Upgrade" (what browsers send)
 	"lateup":     "delay=600ms;upgrade", // ordinary in-flight request when draining begins, upgraded at t_d + 0.5s
@@ -35,12 +36,13 @@ type c03cfg struct {
 	inflight []string // kinds
 	late     []string // late clients: "quick" | "long"
 	sick     bool     // the targets fail their probes after deployment: unhealthy (out of rotation) but with requests in flight
+	shortTT  bool     // the service's target timeout (1s) is shorter than the drain timeout: it bounds the wait for response headers, not a drain
 	held     bool     // rollout-redeploy only: the service is paused, two requests (one per group) are held, the command runs, then resume
 	prior    string   // "timeout" | "clean": the targets were drained before (a pause cutting off a request at its deadline / a pause with a request finishing early), then resumed
 }
 
 func (c c03cfg) String() string {
-	return fmt.Sprintf("cmd=%s targets=%d rollout=%v inflight=[%s] late=[%s] sick=%v prior=%s", c.cmd, c.targets, c.rollout, strings.Join(c.inflight, ","), strings.Join(c.late, ","), c.sick, c.prior) + map[bool]string{true: " held=true"}[c.held]
+	return fmt.Sprintf("cmd=%s targets=%d rollout=%v inflight=[%s] late=[%s] sick=%v prior=%s", c.cmd, c.targets, c.rollout, strings.Join(c.inflight, ","), strings.Join(c.late, ","), c.sick, c.prior) + map[bool]string{true: " held=true"}[c.held] + map[bool]string{true: " target-timeout=1s"}[c.shortTT]
 }
 
 func c03Configs(tier string) []c03cfg {
@@ -73,6 +75,7 @@ func c03Configs(tier string) []c03cfg {
 			}
 		}
 		cfgs = append(cfgs, c03RolloutRedeploy(tier)...)
+		cfgs = append(cfgs, c03Streaming(tier)...)
 		return cfgs
 	}
 
@@ -128,6 +131,7 @@ func c03Configs(tier string) []c03cfg {
 		}
 	}
 	cfgs = append(cfgs, c03RolloutRedeploy(tier)...)
+	cfgs = append(cfgs, c03Streaming(tier)...)
 	// rollout targets present (pause/stop drain both sets)
 	for _, cmd := range []string{"pause", "stop"} {
 		for _, in := range [][]string{{"early"}, {"never", "upgrade"}, {"after", "before"}} {
@@ -152,6 +156,21 @@ func c03RolloutRedeploy(tier string) []c03cfg {
 			cfgs = append(cfgs, c03cfg{cmd: "rollout-redeploy", targets: 1, rollout: true, inflight: in, late: []string{"long", "quick"}})
 		}
 		cfgs = append(cfgs, c03cfg{cmd: "rollout-redeploy", targets: 2, rollout: true, held: true, late: []string{"long"}})
+	}
+	return cfgs
+}
+
+// c03Streaming: an in-flight response whose headers have arrived and whose body completes just before the drain
+// deadline, with the service's target timeout longer and shorter than the drain timeout.
+func c03Streaming(tier string) []c03cfg {
+	var cfgs []c03cfg
+	for _, cmd := range []string{"redeploy", "pause", "stop"} {
+		for _, tt := range []bool{false, true} {
+			cfgs = append(cfgs, c03cfg{cmd: cmd, targets: 1, inflight: []string{"streaming"}, late: []string{"quick"}, shortTT: tt})
+			if tier != "quick" {
+				cfgs = append(cfgs, c03cfg{cmd: cmd, targets: 2, inflight: []string{"streaming", "early", "streaming"}, late: []string{"long"}, shortTT: tt})
+			}
+		}
 	}
 	return cfgs
 }
@@ -209,7 +228,14 @@ func c03Scenario(c c03cfg) *Scenario {
 		}
 		w.AddTarget("na:80")
 		w.AddTarget("rb:80")
-		if r := w.Deploy(deployArgs("s1", olds, []string{host}, nil)); r.Err != nil {
+		dargs := func(targets []string) DeployArgs {
+			a := deployArgs("s1", targets, []string{host}, nil)
+			if c.shortTT {
+				a.TargetOptions.ResponseTimeout = time.Second
+			}
+			return a
+		}
+		if r := w.Deploy(dargs(olds)); r.Err != nil {
 			w.Note("setup: %v", r.Err)
 			return
 		}
@@ -290,7 +316,7 @@ func c03Scenario(c c03cfg) *Scenario {
 			defer wg.Done()
 			switch c.cmd {
 			case "redeploy":
-				w.Deploy(deployArgs("s1", []string{"na:80"}, []string{host}, nil))
+				w.Deploy(dargs([]string{"na:80"}))
 			case "pause":
 				w.Pause("s1", vD, vMaxPause)
 			case "stop":
@@ -385,7 +411,7 @@ func c03Scenario(c c03cfg) *Scenario {
 				continue
 			}
 			switch k {
-			case "early", "before", "offer":
+			case "early", "before", "offer", "streaming":
 				if r.Status != 200 || r.Aborted || !r.Done || r.ServedBy() == "" {
 					vs = append(vs, Violation{"C03", "Q3 in-flight-request-cut-short", fmt.Sprintf("%s (finishing before the drain deadline) got %s", r.ID, r.Summary())})
 				}
